@@ -180,7 +180,7 @@ func escapeCases() []SpellCase {
 
 // numberForms: spelled literal -> exact value, decoded independently here.
 var intForms = []string{"0", "7", "10", "1_0", "1_000_000", "0x1F", "0X1f", "0xff", "0x1EEE_FFFF", "0b101", "0B1_1", "0b100101", "0o17", "0O7", "0o273", "0o7_7", "2147483647", "2147483648", "9223372036854775807", "0x7fffffffffffffff", "0x7FFF_FFFF_FFFF_FFFF", "0b111111111111111111111111111111111111111111111111111111111111111", "0o777777777777777777777"}
-var numForms = []string{".5", "5.", "0.5", "0.", "1.5e-3", "1E+2", "1e5", "1e0", "10E-1", "1_0.5", "1.2_5", "1e1_0", "1_0e1", "0.1", "1.0", "4.0", "1.50", "123.456", "1e21", "1e-7", "1.7976931348623157e308", "5e-324", ".5e1", "5.e1", "0e0", "9007199254740993.0", "1_0.", "0.0_1", "4611686018427387904.0", "4.611686018427387904e18", "1234567890123456789.0", "36028797018963967.0", "27000000001e8", "9223372036854775807.0", "1e19", "100000000000000100.", "9007199254740992.0", "18014398509481985."}
+var numForms = []string{".5", "5.", "0.5", "0.", "1.5e-3", "1E+2", "1e5", "1e0", "10E-1", "1_0.5", "1.2_5", "1e1_0", "1_0e1", "0.1", "1.0", "4.0", "1.50", "123.456", "1e21", "1e-7", "1.7976931348623157e308", "5e-324", ".5e1", "5.e1", "0e0", "9007199254740993.0", "1_0.", "0.0_1", "4611686018427387904.0", "4.611686018427387904e18", "1234567890123456789.0", "36028797018963967.0", "27000000001e8", "9223372036854775807.0", "9200000000000000000.", "9223372036854775000.0", "1e19", "100000000000000100.", "9007199254740992.0", "18014398509481985."}
 
 func ratOfLiteral(s string) *big.Rat {
 	t := strings.ReplaceAll(s, "_", "")
